@@ -1,0 +1,41 @@
+//go:build verif
+
+// Contracts for the gowp verifier (/verif): comment-only file, compiled only with -tags verif.
+package common
+
+//@ func crypto/common.GetHash(pt, key, usage, e) (h, err)
+//@   pure
+//@   trusted_frame returned slices are not tracked as fresh; in-place append into spare capacity cannot be excluded
+//@   requires len(usage) > 0
+//@   ensures err == nil ==> len(h) == et_hmacbits(tagof(e)) / 8
+//@ func crypto/common.GetChecksumHash(b, key, usage, e) (h, err)
+//@   pure
+//@   trusted_frame returned slices are not tracked as fresh; in-place append into spare capacity cannot be excluded
+//@   ensures err == nil ==> len(h) == et_hmacbits(tagof(e)) / 8
+//@ func crypto/common.GetIntegrityHash(b, key, usage, e) (h, err)
+//@   pure
+//@   trusted_frame returned slices are not tracked as fresh; in-place append into spare capacity cannot be excluded
+//@   ensures err == nil ==> len(h) == et_hmacbits(tagof(e)) / 8
+//@ func crypto/common.VerifyChecksum(key, chksum, msg, usage, e) (ok)
+//@   pure
+//@   trusted_frame returned slices are not tracked as fresh; in-place append into spare capacity cannot be excluded
+//@ func crypto/common.getUsage(un, o) (r)
+//@   pure
+//@   trusted_frame returned slices are not tracked as fresh; in-place append into spare capacity cannot be excluded
+//@   ensures len(r) == 5
+//@   ensures r[0] == byte(un >> 24) && r[1] == byte(un >> 16) && r[2] == byte(un >> 8) && r[3] == byte(un) && r[4] == o
+//@ func crypto/common.GetUsageKc(un) (r)
+//@   pure
+//@   trusted_frame returned slices are not tracked as fresh; in-place append into spare capacity cannot be excluded
+//@   ensures len(r) == 5
+//@   ensures r[0] == byte(un >> 24) && r[1] == byte(un >> 16) && r[2] == byte(un >> 8) && r[3] == byte(un) && r[4] == 0x99
+//@ func crypto/common.GetUsageKe(un) (r)
+//@   pure
+//@   trusted_frame returned slices are not tracked as fresh; in-place append into spare capacity cannot be excluded
+//@   ensures len(r) == 5
+//@   ensures r[0] == byte(un >> 24) && r[1] == byte(un >> 16) && r[2] == byte(un >> 8) && r[3] == byte(un) && r[4] == 0xAA
+//@ func crypto/common.GetUsageKi(un) (r)
+//@   pure
+//@   trusted_frame returned slices are not tracked as fresh; in-place append into spare capacity cannot be excluded
+//@   ensures len(r) == 5
+//@   ensures r[0] == byte(un >> 24) && r[1] == byte(un >> 16) && r[2] == byte(un >> 8) && r[3] == byte(un) && r[4] == 0x55
